@@ -1,5 +1,5 @@
 """C16 scenario: the real batch.semaphore.FIFOWeightedSemaphore used exactly as Job.run uses
-worker.cpu_sem (`async with sem(weight): ...`) by NT job tasks on a real asyncio loop.
+worker.cpu_sem (`async with sem(weight): ...`) by 3 or 4 job tasks on a real asyncio loop.
 
 Schedule (all CrossHair-symbolic): w_i weight of job i (1..CAP); per step an action a_s and a drain bit d_s.
   action 0      START the next job task (jobs are started in index order: the jobs are interchangeable
@@ -25,21 +25,21 @@ from vt import sched
 SRC = 'batch/batch/semaphore.py'
 sem_mod = sched.load_file('c16_semaphore_real', SRC)
 CAP = 4
-NT = 3
 
 
 class Bad(Exception):
     pass
 
 
-async def scenario(ws, acts, drains, trace=None):
+async def scenario(ws, acts, drains, trace=None, stats=None):
     sem = sem_mod.FIFOWeightedSemaphore(CAP)
     n = len(ws)
     gates = [asyncio.Event() for _ in range(n)]
     inside = [False] * n
     arrived, entered, tasks = [], [], []
     gate_set = [False] * n
-    stats = {'waited': False}
+    stats = {} if stats is None else stats
+    stats.update({'waited': False, 'complete': False})
 
     async def job(i):
         arrived.append(i)
@@ -68,7 +68,7 @@ async def scenario(ws, acts, drains, trace=None):
 
     try:
         for s in range(len(acts)):
-            a = acts[s]
+            a = sched.concretize(acts[s], 0, n)
             if a == 0:
                 if len(tasks) >= n:
                     raise sched.Prune()
@@ -84,6 +84,7 @@ async def scenario(ws, acts, drains, trace=None):
                 check()
             if trace is not None:
                 trace.append((a, bool(drains[s]), list(inside), sem.value))
+        stats['complete'] = True
         await sched.settle()
         check()
         # everything that was started can finish: open every gate, all jobs leave, capacity is whole again
@@ -102,40 +103,49 @@ async def scenario(ws, acts, drains, trace=None):
         await sched.cleanup(tasks)
 
 
-def _args(w0, w1, w2, rest):
+def _args(nt, args):
+    ws, rest = list(args[:nt]), args[nt:]
     k1 = len(rest) // 2
-    return [w0, w1, w2], [0] + list(rest[:k1]), [rest[k1 + i] for i in range(k1 + 1)]
+    return ws, [0] + list(rest[:k1]), [rest[k1 + i] for i in range(k1 + 1)]
 
 
-def check(w0, w1, w2, *rest):
-    """rest = a1..a_{k-1}, d0..d_{k-1}.  True = property held (or schedule not well-formed)."""
-    ws, acts, drains = _args(w0, w1, w2, rest)
-    try:
-        sched.run_det(scenario(ws, acts, drains))
-    except sched.Prune:
+def _mk(nt):
+    def check(*args):
+        """args = w0..w_{nt-1}, a1..a_{k-1}, d0..d_{k-1}.  True = property held (or schedule not well-formed)."""
+        ws, acts, drains = _args(nt, args)
+        try:
+            sched.run_det(scenario(ws, acts, drains))
+        except sched.Prune:
+            return True
+        except Bad:
+            return False
         return True
-    except Bad:
-        return False
-    return True
+
+    def reach(*args):
+        """Reachability twin: False iff a well-formed schedule ran to the end (final oracle evaluated, whatever it
+        said) AND some job really queued."""
+        ws, acts, drains = _args(nt, args)
+        st = {}
+        try:
+            sched.run_det(scenario(ws, acts, drains, None, st))
+        except sched.Prune:
+            return True
+        except Bad:
+            pass
+        return not (st.get('complete') and st.get('waited'))
+
+    return check, reach
 
 
-def reach(w0, w1, w2, *rest):
-    """Reachability twin: False iff a well-formed schedule ran to the end AND some job really queued."""
-    ws, acts, drains = _args(w0, w1, w2, rest)
-    try:
-        st = sched.run_det(scenario(ws, acts, drains))
-    except sched.Prune:
-        return True
-    except Bad:
-        return True
-    return not st['waited']
+check_3, reach_3 = _mk(3)
+check_4, reach_4 = _mk(4)
 
 
 def replay(args, meta):
-    """Plain asyncio, no CrossHair.  -> (ok, class, why)"""
-    k = meta['k']
-    rest = [args[f'a{i}'] for i in range(1, k)] + [args[f'd{i}'] for i in range(k)]
-    ws, acts, drains = _args(args['w0'], args['w1'], args['w2'], rest)
+    """Plain asyncio (stock loop), no CrossHair.  -> (ok, class, why)"""
+    k, nt = meta['k'], meta['nt']
+    pos = [args[f'w{i}'] for i in range(nt)] + [args[f'a{i}'] for i in range(1, k)] + [args[f'd{i}'] for i in range(k)]
+    ws, acts, drains = _args(nt, pos)
     trace = []
     try:
         sched.run_plain(scenario(ws, acts, drains, trace))
